@@ -151,6 +151,26 @@ def c14_sancov(a):
     evaluations = 0
     distinct = 0
     pre = ["setarch", "x86_64", "-R"] if shutil.which("setarch") else []
+    # RNG outputs predicted (by the instrumented reference run in constant-time-test mode) to drive rare
+    # events inside key generation: A*s1 + s2 wrapping past q / below 0 before reduction (~1 seed in 5000)
+    extras = {}
+    vhexe = a["build"]("release")
+    if vhexe:
+        rs = os.path.join(a["work"], "c14-rareseeds.json")
+        n_scan = 24000 if tier == "quick" else 400000
+        r = subprocess.run([vhexe, "rareseeds", "--seed", str(seed), "--opt", "ctest=1", "--opt", f"n={n_scan}", "--out", rs,
+                            "--fixtures", os.path.join(a["verif"], "fixtures")], capture_output=True, text=True, timeout=3600)
+        if os.path.exists(rs):
+            rd = json.load(open(rs))
+            import random as _random
+            rg = _random.Random(seed)
+            for st, lst in (rd.get("samples") or [{}])[0].items():
+                path = os.path.join(a["work"], f"c14-extras-{st}.hex")
+                with open(path, "w") as f:
+                    for e in lst[:48]:
+                        f.write(e["xi"] + "".join(f"{rg.randrange(256):02x}" for _ in range(32)) + "\n")
+                extras[int(st)] = (path, len(lst[:48]))
+    counters["rare_ctest_keygen_seeds"] = {str(k): v[1] for k, v in extras.items()}
     for opt in opts:
         exe = _build_ct(a, opt)
         # ---- kernels alone ----
@@ -183,7 +203,10 @@ def c14_sancov(a):
                 out = os.path.join(a["work"], f"c14-pipe-O{opt}-{st}-{sh}.json")
                 if os.path.exists(out):
                     os.remove(out)
-                procs.append((subprocess.Popen(pre + [exe, "pipeline", str(st), str(lo), str(hi), str(seed), out], stdout=subprocess.DEVNULL, stderr=subprocess.PIPE), out))
+                cmd = pre + [exe, "pipeline", str(st), str(lo), str(hi), str(seed), out]
+                if sh == 0 and st in extras:
+                    cmd.append(extras[st][0])
+                procs.append((subprocess.Popen(cmd, stdout=subprocess.DEVNULL, stderr=subprocess.PIPE), out))
             reps = []
             for pr, out in procs:
                 try:
@@ -284,7 +307,42 @@ def c14_callgrind(a):
                                 f"--callgrind-out-file={out}", exe, "one", str(st), hx], capture_output=True, text=True, timeout=3600)
             if r.returncode != 0 or not os.path.exists(out):
                 return None
-            body = [l for l in open(out) if not re.match(r"^(pid|cmd|desc|creator|part|thread|# callgrind|version|positions|events|summary|totals):?", l)]
+            # Canonical form of the profile: header lines dropped, callgrind's name-compression ids "(n)"
+            # resolved to names (ids are handed out in order of first encounter, which depends on code
+            # run before the collection window), blocks keyed by (object, function) and sorted.
+            # Jump statistics (jcnd=/jump=) *inside libc* are dropped: the taken-counter of one size-class
+            # branch of glibc's memcpy was observed to vary (84..87 of 374) between inputs on the unchanged
+            # tree while every instruction count - also inside memcpy - and every call-site cost was
+            # identical, which a real size change cannot produce (the two paths differ by two instructions):
+            # an accounting artefact. Instruction costs everywhere and the jump statistics of all non-libc
+            # code stay in the comparison.
+            maps = {"file": {}, "fn": {}, "ob": {}}
+            kind = {"fl": "file", "fi": "file", "fe": "file", "cfi": "file", "cfl": "file", "fn": "fn", "cfn": "fn", "ob": "ob", "cob": "ob"}
+            blocks, cur_ob, cur_key = {}, "", None
+            for l in open(out):
+                l = l.rstrip("\n")
+                if not l or re.match(r"^(pid|cmd|desc|creator|part|thread|# callgrind|version|positions|events|summary|totals):?", l):
+                    continue
+                m = re.match(r"^(fl|fi|fe|cfi|cfl|fn|cfn|ob|cob)=\((\d+)\)(?: (.*))?$", l)
+                if m:
+                    k, i, name = m.group(1), m.group(2), m.group(3)
+                    mp = maps[kind[k]]
+                    if name is not None:
+                        mp[i] = name
+                    l = f"{k}={mp.get(i, '?')}"
+                    if k == "ob":
+                        cur_ob = mp.get(i, "?")
+                        continue
+                    if k == "fn":
+                        cur_key = (cur_ob, mp.get(i, "?"))
+                        blocks.setdefault(cur_key, [])
+                        continue
+                if cur_key is None:
+                    continue
+                if "libc" in cur_key[0] and l.startswith(("jcnd=", "jump=")):
+                    continue
+                blocks[cur_key].append(l)
+            body = [f"{k}\n" + "\n".join(v) + "\n" for k, v in sorted(blocks.items())]
             tot = [l for l in open(out) if l.startswith("totals:") or l.startswith("summary:")]
             os.remove(out)
             return hashlib.sha256("".join(body).encode()).hexdigest(), (tot[0].strip() if tot else "")
@@ -308,7 +366,7 @@ def c14_callgrind(a):
 
 PLANS["C14"] = dict(
     level="exploration",
-    rule_prefix="SanitizerCoverage (edge sequence + load/store address sequence, rolling hashes and counts) of dudect_keygen_sign_with_rng for RNG outputs {0^64, FF^64, all 512 single-bit values, all 512 single-zero-bit values, seeded random} per set, and of each secret-handling kernel alone on in-domain variants {all-min, all-max, alternating, single spike, boundary values, random}: exactly one distinct trace must be observed per function (signatures must differ across inputs). quick: opt-level 3; thorough: opt-levels 1, s, 3 and 20000 RNG outputs per set. Plus valgrind memcheck secret-taint of the kernels (inputs marked undefined; any tainted branch or address is a violation) and, in thorough, callgrind per-instruction/per-branch profile equality of the pipeline. Non-trivial = distinct inputs (distinct signatures / distinct kernel input digests). ",
+    rule_prefix="SanitizerCoverage (edge sequence + load/store address sequence, rolling hashes and counts) of dudect_keygen_sign_with_rng for RNG outputs {0^64, FF^64, all 512 single-bit values, all 512 single-zero-bit values, seeded random, plus up to 48 RNG outputs per set whose key-generation seed is predicted by the instrumented reference (run in constant-time-test mode over 24000 / 400000 candidates) to make A*s1+s2 wrap past q or below 0 before reduction} per set, and of each secret-handling kernel alone on in-domain variants {all-min, all-max, alternating, single spike, boundary values, random}: exactly one distinct trace must be observed per function (signatures must differ across inputs). quick: opt-level 3; thorough: opt-levels 1, s, 3 and 20000 RNG outputs per set. Plus valgrind memcheck secret-taint of the kernels (inputs marked undefined; any tainted branch or address is a violation) and, in thorough, callgrind per-instruction/per-branch profile equality of the pipeline. Non-trivial = distinct inputs (distinct signatures / distinct kernel input digests). ",
     stages=[dict(name="c14-sancov", kind="py", func="c14_sancov"),
             dict(name="c14-taint", kind="py", func="c14_taint"),
             dict(name="c14-callgrind", kind="py", func="c14_callgrind", tiers=["thorough"])],
